@@ -730,3 +730,78 @@ Proof.
         pose proof (Hd k (pos - 1) ltac:(lia) ltac:(lia)). lia.
     + intros k Hk. lia.
 Qed.
+
+(** * Statements in the form used by Props/C06.v *)
+Theorem locate_point_iff cells target k : cells_ok cells ->
+  (locate_point cells target = Some k <-> 0 <= k < lenZ cells /\ in_cell (nthZ cells k 0) target).
+Proof.
+  intros Hok. split.
+  - apply locate_point_sound; assumption.
+  - intros (Hk & Hin). apply locate_point_complete; assumption.
+Qed.
+
+Theorem crossing_candidates_spec (idx : index) visited sid :
+  (forall pos cl, In pos visited -> find_by_shape (snd (nth_cell idx pos)) sid = Some cl -> increasing (cl_edges cl)) ->
+  increasing (crossing_candidates idx visited sid) /\
+  forall e, In e (crossing_candidates idx visited sid) <->
+            exists pos cl, In pos visited /\ find_by_shape (snd (nth_cell idx pos)) sid = Some cl /\ In e (cl_edges cl).
+Proof.
+  intros H. split; [apply crossing_candidates_increasing; exact H|].
+  intros e. apply crossing_candidates_In.
+Qed.
+
+(** * The hypotheses of [query_eq_brute] are satisfiable (and [index_ok] is inhabited): one
+      polygonal shape without edges containing everything ("full"), indexed by the six face cells *)
+Section Example.
+  Let point := Z.
+  Let sign (a b c d : point) := DoNotCross.
+  Let vc (a b c d : point) := false.
+  Let center (id : Z) : point := id.
+  (* every point lies on face 0: its leaf cell is the first leaf of face 0 *)
+  Let leaf (p : point) : Z := 1.
+  Let shapes : list (qshape point) := [mkQShape 2 []].
+  Let ref_of (sid : Z) : point := 0.
+  Let ref_in (sid : Z) : bool := true.
+  Let face (f : Z) : Z := (2 * f + 1) * 2 ^ 60.
+  Let idx : index := map (fun f => (face f, [mkClipped 0 true []])) [0; 1; 2; 3; 4; 5].
+
+  Example index_ok_inhabited : index_ok point sign vc center shapes ref_of ref_in idx.
+  Proof.
+    constructor.
+    - split.
+      + intros i Hi. assert (i = 0 \/ i = 1 \/ i = 2 \/ i = 3 \/ i = 4 \/ i = 5) as H by (change (lenZ (cell_ids idx)) with 6 in Hi; lia).
+        destruct H as [->|[->|[->|[->|[->| ->]]]]]; vm_compute; split; reflexivity.
+      + intros i j Hij Hj.
+        assert (j = 1 \/ j = 2 \/ j = 3 \/ j = 4 \/ j = 5) as H by (change (lenZ (cell_ids idx)) with 6 in Hj; lia).
+        assert (i = 0 \/ i = 1 \/ i = 2 \/ i = 3 \/ i = 4) as H' by lia.
+        destruct H as [->|[->|[->|[->| ->]]]]; destruct H' as [->|[->|[->|[->| ->]]]]; try lia; vm_compute; reflexivity.
+    - intros pos cl Hpos Hin.
+      assert (pos = 0 \/ pos = 1 \/ pos = 2 \/ pos = 3 \/ pos = 4 \/ pos = 5) as H by (change (lenZ idx) with 6 in Hpos; lia).
+      assert (cl = mkClipped 0 true []) as ->.
+      { destruct H as [->|[->|[->|[->|[->| ->]]]]]; cbn in Hin; destruct Hin as [<-|[]]; reflexivity. }
+      cbn. repeat split; try lia. constructor.
+    - intros pos sid Hpos Hsid.
+      assert (pos = 0 \/ pos = 1 \/ pos = 2 \/ pos = 3 \/ pos = 4 \/ pos = 5) as H by (change (lenZ idx) with 6 in Hpos; lia).
+      assert (sid = 0) as -> by (change (lenZ shapes) with 1 in Hsid; lia).
+      destruct H as [->|[->|[->|[->|[->| ->]]]]]; reflexivity.
+  Qed.
+
+  Example hypotheses_satisfiable :
+    H_JORDAN point sign vc shapes ref_of /\ H_CLIP point sign vc center leaf shapes idx /\
+    H_COVER point sign vc leaf shapes ref_of ref_in idx /\
+    H_CLIP_VERTEX point Z.eqb leaf shapes idx /\ H_COVER_VERTEX point Z.eqb leaf shapes idx.
+  Proof.
+    assert (forall sid, 0 <= sid < lenZ shapes -> sid = 0) as Hs by (intros sid H; change (lenZ shapes) with 1 in H; lia).
+    assert (forall pos, 0 <= pos < lenZ idx -> pos = 0 \/ pos = 1 \/ pos = 2 \/ pos = 3 \/ pos = 4 \/ pos = 5) as Hp
+      by (intros pos H; change (lenZ idx) with 6 in H; lia).
+    repeat split.
+    - intros sid a b Hsid _. rewrite (Hs sid Hsid). reflexivity.
+    - intros pos sid p Hpos Hsid _ _. rewrite (Hs sid Hsid).
+      destruct (Hp pos Hpos) as [->|[->|[->|[->|[->| ->]]]]]; reflexivity.
+    - intros p sid Hsid Hno. exfalso. apply (Hno 0); [change (lenZ idx) with 6; lia|].
+      vm_compute. split; congruence.
+    - intros pos sid p Hpos Hsid _. rewrite (Hs sid Hsid).
+      destruct (Hp pos Hpos) as [->|[->|[->|[->|[->| ->]]]]]; reflexivity.
+    - intros p sid Hsid _. rewrite (Hs sid Hsid). reflexivity.
+  Qed.
+End Example.
